@@ -49,11 +49,16 @@ CHECKS['C01'] = dict(
     title='CallbackList invokes exactly the current callbacks, once each, in list order',
     level='exploration',
     rule='seeded histories of append/prepend/insert/remove/ownsHandle/empty/forEach/forEachIf/invoke/eventutil helpers over live, stale, '
-         'empty and repeated handles, 8 configurations (3 prototypes, 4 policies, CallbackList and dispatcher lists), each step compared with '
+         'empty and repeated handles, 8 configurations (4 prototypes, 5 policies, CallbackList and dispatcher lists), each step compared with '
          'the sequential model + structural walk + ledger; a case is non-trivial when it contains >=1 successful remove and >=1 invocation; '
          'distinct = distinct hash of the full operation/result trace',
     jobs=JS('drv_cblist', 'asan', 'c01', 4000, 150000, M4, shards=4) + JS('drv_cblist', 'plain', 'c01', 8000, 300000, M4, seed_offset=1, shards=4),
     assumptions=['model M-list (DESIGN §4) is the specification', 'single-threaded histories; concurrency is C03'],
+    technique='differential runtime monitor: generated histories vs sequential reference model, structural-invariant walker, instance ledger, ASan+UBSan',
+    level_text='Exploration: thousands (quick) to hundreds of thousands (thorough) of seeded operation histories over 8 policy/prototype configurations are executed on the real headers; '
+               'every return value, every callback call with its arguments, every enumeration and the linked structure itself are compared with a sequential model after each step. '
+               'Held on the histories run, not proved.',
+    level_note='Trusted: the ~100-line model M-list, the harness generator, g++ 12 ASan/UBSan runtimes. Single-threaded histories only (C03 covers schedules).',
 )
 
 CHECKS['C02'] = dict(
@@ -65,6 +70,81 @@ CHECKS['C02'] = dict(
          '>=1 successful remove and >=1 invocation; distinct = distinct trace hash',
     jobs=JS('drv_cblist', 'asan', 'c02', 5000, 200000, M4, shards=4) + JS('drv_cblist', 'plain', 'c02', 10000, 400000, M4, seed_offset=1, shards=4),
     assumptions=['model M-list snapshot semantics', 'foreign live handles are only passed to ownsHandle (documented precondition)'],
+    technique='online snapshot-frame monitor over generated re-entrant programs (operations issued from inside callbacks to depth 3), ledger, ASan+UBSan',
+    level_text='Exploration: re-entrant programs are generated online from the model state, so dangerous compositions (remove the running/next/previous callback, act through '
+               'already removed but still referenced handles, nested invocation) are frequent; each nested result and call is checked against the snapshot semantics of the statement.',
+    level_note='Trusted: model snapshot semantics = the statement; foreign live handles only passed to ownsHandle. Self-deadlock would show as a hang (reported after one retry).',
+)
+
+MQ = [0x03, 0x0c, 0x30, 0x40]
+CHECKS['C05'] = dict(
+    title='EventQueue consumes every queued event exactly once, in FIFO order',
+    level='exploration',
+    rule='seeded single-threaded histories (50-200 ops) of enqueue/process/processOne/processIf/processUntil/peekEvent/takeEvent/dispatch(QueuedEvent)/'
+         'clearEvents/emptyQueue/listener changes, with operations issued from inside listeners and predicates (depth<=2), 7 queue configurations '
+         '(int/std::string keys, by-value/by-reference/move-only payloads, include/exclude-event forms, getEvent policy, ordered lists); the model '
+         'predicts the next callback (listener, predicate or return) and every real callback is compared with it; per-event state machine and payload '
+         'ledger; non-trivial = >=1 processing call with events and (>=1 re-queued event or >=1 nested operation); distinct = trace hash',
+    jobs=JS('drv_queue', 'asan', 'c05', 2100, 100000, MQ, shards=4) + JS('drv_queue', 'plain', 'c05', 4200, 200000, MQ, seed_offset=1, shards=4),
+    assumptions=['model M-queue + M-disp (DESIGN §4) is the specification', 'single-threaded; schedules are C06'],
+    technique='online next-callback-expectation monitor over generated queue histories with re-entrant listeners/predicates; per-event exactly-once state machine; payload ledger; ASan+UBSan',
+    level_text='Exploration: every listener call, predicate call and return of a processing call on the real queue is compared with what the sequential model expects next, so a lost, duplicated, '
+               're-ordered or wrongly routed event is caught at the callback where it shows; payload instances are counted so a slot recycled without clearing or a leaked event is caught at the next quiescent point.',
+    level_note='Trusted: model M-queue/M-disp, generator, ASan/UBSan. Single-threaded histories.',
+)
+
+CHECKS['C08'] = dict(
+    title='Stored callbacks and arguments are destroyed exactly once, never leaked',
+    level='exploration',
+    rule='lifetime mode of the C01/C02/C10 list histories and the C05/C10 queue histories: long histories with heavy removal during invocation, recycled queue '
+         'slots, copy/move/swap of containers holding content, destruction of containers with content; every callback/payload object is a counted type: double '
+         'destruction, use after destruction and, at every quiescent point, live instances != model content are violations; LeakSanitizer at exit; '
+         'non-trivial/distinct as in C02/C05',
+    jobs=JS('drv_cblist', 'asan', 'c08', 1600, 60000, M4, shards=4) + JS('drv_queue', 'asan', 'c08', 1400, 60000, MQ, seed_offset=2, shards=4),
+    assumptions=['a removed callback must be released by the next quiescent point (no invocation in progress)'],
+    technique='instance ledger of counted callback/payload types checked at every quiescent point + ASan/LeakSanitizer, driven by the list and queue monitors in lifetime mode',
+    level_text='Exploration: the ledger knows every live instance by kind and id; after each top-level operation the live set must equal what the model says the containers hold, and after destruction it must be empty.',
+    level_note='Trusted: the counted types (magic word + per-id live counts), LeakSanitizer. Exceptions are C09.',
+)
+
+CHECKS['C10'] = dict(
+    title='Copies are independent, moves transfer, swaps exchange; results fully functional',
+    level='exploration',
+    rule='pool of 2-4 objects in raw storage pre-filled with 0x00/0xFF/0xA5/0x5C/random bytes before each placement-new; copy-construct, copy-assign (also self), '
+         'move-construct, move-assign, swap (also self), destroy/re-create interleaved with the C01/C02 list histories (counters placed far apart through the guarded hook) '
+         'and the C05 queue histories; after each such operation the result is enumerated (handles harvested through forEach) and, for queues, emptyQueue/waitFor(0)/enqueue/process '
+         'are exercised; all later operations on every pool member stay under the model; non-trivial/distinct as C02/C05',
+    jobs=JS('drv_cblist', 'asan', 'c10', 4000, 150000, M4, shards=4) + JS('drv_queue', 'asan', 'c10', 2100, 80000, MQ, seed_offset=2, shards=4),
+    assumptions=['content of a moved-from source is not asserted (source is destroyed and re-created)', 'copy/move-assignment into a queue that still has pending events is not generated (the statement does not say what happens to them)'],
+    technique='differential runtime monitor with copy/move/swap operations on pre-filled raw storage; ASan+UBSan',
+    level_text='Exploration: every copy/move/swap result is checked for content, independence (all later changes to either object are compared with separate models) and full function.',
+    level_note='Trusted: models, generator. Uninitialised members are made visible by pre-filling the storage with hostile byte patterns.',
+)
+
+CHECKS['C11'] = dict(
+    title='A queue is never reported empty while an event is pending or in dispatch',
+    level='exploration',
+    rule='single-threaded half: listeners and predicates running inside process/processOne/processIf/processUntil (nested to depth 2) call emptyQueue() and waitFor(0) '
+         'and the result is compared with the model (pending non-empty or a processing call in progress => not empty); non-trivial as C05; distinct = trace hash',
+    jobs=JS('drv_queue', 'asan', 'c11', 2100, 100000, MQ, shards=4) + JS('drv_queue', 'plain', 'c11', 4200, 200000, MQ, seed_offset=1, shards=4),
+    assumptions=['concurrent observers are added by drv_queue_mt (observer mode) when built'],
+    technique='online monitor: emptiness observations from inside listeners/predicates compared with the model of pending + in-progress processing calls',
+    level_text='Exploration of the single-threaded histories where the observer is a listener or predicate.',
+    level_note='Concurrent half pending.',
+)
+
+CHECKS['C13'] = dict(
+    title='OrderedQueueList processes events in comparator order, stably, exactly once',
+    level='exploration',
+    rule='the C05 histories on queues with QueueList=OrderedQueueList (ascending keys; key%4 descending with many ties): model keeps the pending list '
+         'stably sorted, re-queued events merged before newer equals; independent per-call monotonicity/stability check from the dispatch trace; '
+         'non-trivial as C05; distinct = trace hash',
+    jobs=[J('drv_queue', 'asan', 'c13', 2000, 100000, defs=['-DVF_CFG_MASK=0x18'], shards=8),
+          J('drv_queue', 'plain', 'c13', 4000, 200000, defs=['-DVF_CFG_MASK=0x18'], seed_offset=1, shards=8)],
+    assumptions=['comparators used are strict weak orders'],
+    technique='online next-callback-expectation monitor with ordered-pending model + trace-level monotonicity/stability oracle; ASan+UBSan',
+    level_text='Exploration: as C05, on ordered queue lists, with heavy key duplication.',
+    level_note='Trusted: model, generator.',
 )
 
 CHECKS['C19'] = dict(
@@ -75,33 +155,15 @@ CHECKS['C19'] = dict(
          'are relaxed exactly as stated, all others strict; non-trivial = >=1 remove and >=1 invocation; distinct = trace hash',
     jobs=JS('drv_cblist', 'asan', 'c19', 4000, 150000, M4, shards=4) + JS('drv_cblist', 'plain', 'c19', 8000, 300000, M4, seed_offset=1, shards=4),
     assumptions=['the wrap is observed by reading the real counter through the guarded friend hook'],
+    technique='runtime monitor with guarded counter-placement hook: histories continue across an observed 2^32 wrap; relaxed frames for in-progress invocations only',
+    level_text='Exploration: the generation counter is placed 0..40 additions before 2^32 at random points (idle, inside callbacks, around copy/move/swap); thousands of real wraps are '
+               'observed per run and the invocations before, during and after are checked against the model.',
+    level_note="Trusted: the friend hook that stores currentCounter (equivalent to the suite's #define private public); wrap detection reads the real counter.",
 )
-
-
-# ----------------------------------------------------------------------------- manifest texts
-_T = {
- 'C01': dict(technique='differential runtime monitor: generated histories vs sequential reference model, structural-invariant walker, instance ledger, ASan+UBSan',
-             level_text='Exploration: thousands (quick) to hundreds of thousands (thorough) of seeded operation histories over 8 policy/prototype configurations are executed on the real headers; '
-                        'every return value, every callback call with its arguments, every enumeration and the linked structure itself are compared with a sequential model after each step. '
-                        'Held on the histories run, not proved.',
-             level_note='Trusted: the ~100-line model M-list, the harness generator, g++ 12 ASan/UBSan runtimes. Single-threaded histories only (C03 covers schedules).'),
- 'C02': dict(technique='online snapshot-frame monitor over generated re-entrant programs (operations issued from inside callbacks to depth 3), ledger, ASan+UBSan',
-             level_text='Exploration: re-entrant programs are generated online from the model state, so dangerous compositions (remove the running/next/previous callback, act through '
-                        'already removed but still referenced handles, nested invocation) are frequent; each nested result and call is checked against the snapshot semantics of the statement.',
-             level_note='Trusted: model snapshot semantics = the statement; foreign live handles only passed to ownsHandle. Self-deadlock would show as a hang (reported after one retry).'),
- 'C19': dict(technique='runtime monitor with guarded counter-placement hook: histories continue across an observed 2^32 wrap; relaxed frames for in-progress invocations only',
-             level_text='Exploration: the generation counter is placed 0..40 additions before 2^32 at random points (idle, inside callbacks, around copy/move/swap); thousands of real wraps are '
-                        'observed per run and the invocations before, during and after are checked against the model.',
-             level_note='Trusted: the friend hook that stores currentCounter (equivalent to the suite\'s #define private public); wrap detection reads the real counter.'),
-}
-for _k, _v in _T.items():
-    if _k in CHECKS:
-        CHECKS[_k].update(_v)
 
 HOOK_COMMITS = ['104b3fd', '2c7a501', '6ad2faa', 'f317eda']
 
-NOT_APPLICABLE = {
-}
+NOT_APPLICABLE = {}
 for _i in range(1, 21):
     _p = 'C%02d' % _i
     if _p not in CHECKS:
